@@ -60,6 +60,8 @@ func main() {
 			genKeys(seed, n, os.Args[5])
 		case "interleave":
 			genInterleave(seed, n, os.Args[5])
+		case "writers":
+			genWriters(seed, n, os.Args[5])
 		default:
 			os.Exit(2)
 		}
@@ -69,6 +71,8 @@ func main() {
 			execCache(os.Args[3], os.Args[4])
 		case "keys":
 			execKeys(os.Args[3], os.Args[4])
+		case "writers":
+			execWriters(os.Args[3], os.Args[4])
 		default:
 			os.Exit(2)
 		}
@@ -80,6 +84,8 @@ func main() {
 			oracleInterleave(os.Args[3], os.Args[4])
 		case "keys":
 			oracleKeys(os.Args[3], os.Args[4])
+		case "writers":
+			oracleWriters(os.Args[3], os.Args[4])
 		default:
 			os.Exit(2)
 		}
